@@ -2,8 +2,8 @@
 from harness._compute import search_with, sym_correspondence
 
 PROPERTY = "C01"
-LEAN_TARGETS = ['VectorModel.Refine.LorentzSigned', 'VectorModel.Refine.LorentzSigned2', 'VectorModel.Props.Regular', 'VectorModel.Props.C01', 'VectorModel.Props.C01Method', 'VectorModel.Props.MethodExpr', 'VectorModel.Refine.Planar', 'VectorModel.Refine.SpatialZ', 'VectorModel.Refine.SpatialAcc', 'VectorModel.Refine.SpatialBin', 'VectorModel.Refine.SpatialRot', 'VectorModel.Refine.LorentzAcc', 'VectorModel.Refine.LorentzBin', 'VectorModel.Refine.Equal']
-THEOREM_FILES = ['VectorModel/Spec/SignedTau.lean', 'VectorModel/Refine/LorentzSigned.lean', 'VectorModel/Refine/LorentzSigned2.lean', 'VectorModel/Props/Regular.lean', 'VectorModel/Props/C01.lean', 'VectorModel/Props/C01Method.lean', 'VectorModel/Props/MethodExpr.lean', 'VectorModel/Refine/Planar.lean', 'VectorModel/Refine/SpatialZ.lean', 'VectorModel/Refine/SpatialAcc.lean', 'VectorModel/Refine/SpatialBin.lean', 'VectorModel/Refine/SpatialRot.lean', 'VectorModel/Refine/LorentzAcc.lean', 'VectorModel/Refine/LorentzBin.lean', 'VectorModel/Refine/Equal.lean']
+LEAN_TARGETS = ['VectorModel.Refine.LorentzSigned', 'VectorModel.Refine.LorentzSigned2', 'VectorModel.Props.Regular', 'VectorModel.Props.C01', 'VectorModel.Props.C01Method', 'VectorModel.Props.MethodExpr', 'VectorModel.Props.MethodExpr2', 'VectorModel.Refine.Planar', 'VectorModel.Refine.SpatialZ', 'VectorModel.Refine.SpatialAcc', 'VectorModel.Refine.SpatialBin', 'VectorModel.Refine.SpatialRot', 'VectorModel.Refine.LorentzAcc', 'VectorModel.Refine.LorentzBin', 'VectorModel.Refine.Equal']
+THEOREM_FILES = ['VectorModel/Spec/SignedTau.lean', 'VectorModel/Refine/LorentzSigned.lean', 'VectorModel/Refine/LorentzSigned2.lean', 'VectorModel/Props/Regular.lean', 'VectorModel/Props/C01.lean', 'VectorModel/Props/C01Method.lean', 'VectorModel/Props/MethodExpr.lean', 'VectorModel/Props/MethodExpr2.lean', 'VectorModel/Refine/Planar.lean', 'VectorModel/Refine/SpatialZ.lean', 'VectorModel/Refine/SpatialAcc.lean', 'VectorModel/Refine/SpatialBin.lean', 'VectorModel/Refine/SpatialRot.lean', 'VectorModel/Refine/LorentzAcc.lean', 'VectorModel/Refine/LorentzBin.lean', 'VectorModel/Refine/Equal.lean']
 NOT_COVERED = ['singular strata (zero vector, exactly on the z axis with theta/eta storage, t = 0): no real-number meaning in the model (DESIGN.md 3.4)', 'float64 rounding', 'isclose across systems (C12 defines it coordinate-wise in the stored system)', 'equal/not_equal soundness across systems (covered structurally by C12; see DESIGN.md)']
 ALWAYS_SEARCH = True          # the law sweep on the real code is cheap: run it in every tier (exploration, not proof)
 _law_search = search_with("c01")
